@@ -59,20 +59,27 @@ def candidates(ob):
             yield ''.join(tup)
 
 
-def scanner_state_is_local(rep):
+def scanner_state_is_local(rep, prop='C01'):
     """C01 holds for every stream, also when several token streams of the (shared) lexer are consumed interleaved: the
     scanner keeps its text and position in the generator's own frame - get_tokens and the methods it calls on the lexer
     store nothing on the lexer object (frame obligation over the real AST)"""
     from pyvc import effects
     fns = effects.all_functions()
+    config_api = ('__init__', 'clear', 'default_initialization', 'set_SQL_REGEX', 'add_keywords', 'get_default_instance')
+    # the scanning path: get_tokens, is_keyword and every Lexer method they (transitively) call; helpers that only the
+    # configuration API calls are configuration code (their effect on later calls is C20's subject)
+    graph = effects.call_graph()
+    lexer_graph = {q: {t for t in tg if t.startswith('sqlparse.lexer.Lexer.')} for q, tg in graph.items()
+                   if q.startswith('sqlparse.lexer.Lexer.')}
+    scanning = effects.reachable(lexer_graph, ['sqlparse.lexer.Lexer.get_tokens', 'sqlparse.lexer.Lexer.is_keyword'])
     for q, node in sorted(fns.items()):
         if not (q.startswith('sqlparse.lexer.Lexer.') and '<locals>' not in q):
             continue
         name = q.rsplit('.', 1)[1]
-        if name in ('__init__', 'clear', 'default_initialization', 'set_SQL_REGEX', 'add_keywords', 'get_default_instance'):
-            continue        # the configuration API (its effect on later calls is C20's subject)
+        if name in config_api or q not in scanning:
+            continue
         ws = [w.as_dict() for w in effects.writes_of(q, node) if w.base in ('self', 'cls')]
-        common.structural(rep, 'C01/%s/keeps no scanning state on the lexer object (interleaved streams are independent)' % q,
+        common.structural(rep, '%s/%s/keeps no scanning state on the lexer object (interleaved streams are independent)' % (prop, q),
                           q, not ws, {'writes': ws})
 
 
